@@ -265,7 +265,7 @@ class C19(Property):
 
     def gen_glue_case(self, rng, tier):
         if rng.chance(0.5):
-            return {"kind": "glue", "what": "wrap", "cacher": rng.choice(self.GLUE_KINDS)}
+            return {"kind": "glue", "what": "wrap", "cacher": rng.choice(self.GLUE_KINDS), "outer": rng.chance(0.5)}
         return {"kind": "glue", "what": "source-copy", "copy": rng.choice(["pickle", "deepcopy"]), "first_read": rng.chance(0.8),
                 "bad": rng.choice([None, None, "badfeat", "deactivated"])}
 
@@ -370,6 +370,7 @@ class C19(Property):
         # the CobaMultiprocessor glue: every kind of context cacher must reach the workers wrapped; sources copied to workers
         for kind in self.GLUE_KINDS:
             cs.append({"kind": "glue", "what": "wrap", "cacher": kind})
+            cs.append({"kind": "glue", "what": "wrap", "cacher": kind, "outer": True})
         for cp in ("pickle", "deepcopy"):
             for first in (True, False):
                 for bad in (None, "badfeat"):
@@ -704,13 +705,19 @@ class C19(Property):
         fails = []
         if case["what"] == "wrap":
             o = R.run_glue_wrap(case)
-            tags = ["glue:wrap:" + case["cacher"]]
-            where = "CobaMultiprocessor with CobaContext.cacher = %s: the workers get a %s" % (case["cacher"], o.get("worker_type"))
+            outer = bool(case.get("outer"))
+            tags = ["glue:wrap:" + ("ConcurrentCacher(%s)" % case["cacher"] if outer else case["cacher"])]
+            where = "CobaMultiprocessor with CobaContext.cacher = %s: the workers get a %s" % (
+                "an already installed ConcurrentCacher(%s)" % case["cacher"] if outer else case["cacher"], o.get("worker_type"))
             if o.get("capture_error"):
                 fails.append(F("A", "CobaMultiprocessor.filter could not be run with the recorder pool (%s)" % o["capture_error"], "A:mp-wiring-failed"))
             else:
                 if o["alive"]:
                     fails.append(F("B", "%s; two workers asking for the same key: %d still waiting" % (where, o["alive"]), "glue-workers-wait-forever"))
+                elif outer and o["max_inside"] > 1:
+                    fails.append(F("B", "%s that does not share the lock table of the installed one: while another user of the installed cacher held its write "
+                                   "lock on a key and was running the getter, a worker's get_set on that key was not blocked and ran its getter too (entry written "
+                                   "by two writers at once)" % where, "glue-outer-writer-not-excluded"))
                 elif o["caching"] and o["max_inside"] > 1:
                     fails.append(F("B", "%s; two workers that missed the same key ran the getter AT THE SAME TIME (two writers populating one entry; "
                                    "the shared cacher is not protected by the ConcurrentCacher locks)" % where, "glue-two-getters-at-once"))
@@ -718,7 +725,9 @@ class C19(Property):
                     fails.append(F("B", "%s; the getter ran %d times for one key" % (where, o["runs"]), "glue-getter-ran-twice"))
                 if o.get("array_nonzero"):
                     fails.append(F("B", "%s; locks remain %s" % (where, o["array_nonzero"]), "array-nonzero-after-exit"))
-                if not fails and not o["wrapped"]:
+                if not fails and outer and not o.get("shares_table"):
+                    fails.append(F("A", "%s whose lock table is not the installed one's" % where, "A:glue-private-lock-table"))
+                if not fails and not outer and not o["wrapped"]:
                     fails.append(F("A", "%s, not a ConcurrentCacher around the context cacher" % where, "A:glue-not-wrapped"))
             return {"fails": fails, "nontrivial": True, "tags": tags, "impl": o, "model": {"wrapped": True}}
         o = R.run_glue_source(case)
